@@ -457,6 +457,48 @@ pub fn run(cfg: &Cfg, out: &mut Out) {
         }
     }
 
+    // 5b. stress: every number of leading zeros 0..=48 (65, 130 too) in front of the values around
+    //     each type limit: limit-2..limit+2, a value inside and the two ends of the
+    //     "same leading digits, last eight differ" window above the limit.  A digit-block or
+    //     length-capped parser misbehaves only for particular (zero count, window) pairs.
+    {
+        let mut tails: Vec<String> = Vec::new();
+        for k in [7u32, 8, 15, 16, 31, 32, 63, 64, 127, 128] {
+            let lim = if k == 128 { Dec::from_u128(u128::MAX).add_small(1).unwrap() } else { Dec::from_u128(1u128 << k) };
+            for d in [-2i64, -1, 0, 1, 2, 2794062] {
+                if let Some(x) = lim.add_small(d) {
+                    tails.push(x.show());
+                }
+            }
+            // ...99999999 and the next one (..00000000): the top of the eight-digit window
+            let sh = lim.show();
+            if sh.len() > 8 {
+                let top = format!("{}99999999", &sh[..sh.len() - 8]);
+                tails.push(top.clone());
+                let dtop = Dec(top.bytes().map(|b| b - b'0').collect());
+                tails.push(dtop.add_small(1).unwrap().show());
+            }
+        }
+        tails.sort();
+        tails.dedup();
+        let mut zs: Vec<usize> = (0..=48).collect();
+        zs.extend([65usize, 130]);
+        for t in &tails {
+            for &z in &zs {
+                let zeros = "0".repeat(z);
+                for sign in ["", "-"] {
+                    let s = format!("{}{}{}", sign, zeros, t);
+                    emit_whole(out, &s);
+                    emit_prefix(out, &format!("{};r", s), if z % 2 == 0 { 0 } else { 7 });
+                    if cfg.thorough {
+                        emit_prefix(out, &s, 0);
+                        emit_getparser(out, &s, 7);
+                    }
+                }
+            }
+        }
+    }
+
     // 6. bool: everything over the letters of "true" / "false", and mutations
     let nb = 5;
     for s in all_strings(&['t', 'r', 'u', 'e'], nb) {
